@@ -78,7 +78,8 @@ def check(pm: ProgramModel, ctx: Ctx) -> None:
         cd.report("FIELDS", f"abstract={flag}", cd.roundtrip(fide_model(mb, [D(1, 1, 1), D(0, 1, 1)], abstract=flag)),
                   f"abstract flags ({flag})", ("abstract",))
     cd.abstract_positions(mb)
-    for cls_, name in NAME_CLASSES.items():
+    # (the empty name is XML-representable: an attribute name="" and an element <var/> without text)
+    for cls_, name in list(NAME_CLASSES.items()) + [("empty", "")]:
         cd.report("ENC", f"name:{cls_}", cd.roundtrip(name_model(mb, name)), f"feature named {name!r} ({cls_})",
                   ("name", "root", "parent", "relation", "constraint"))
     cd.report("ENC", "name:root-space", cd.roundtrip(name_model(mb, "two words", in_ctc=False, as_root=True)),
